@@ -11,7 +11,7 @@ THEOREMS = [
     "Typedpy.C18.newline_value_loses_field", "Typedpy.C18.newline_value_gotFirst_keeps_field",
     "Typedpy.C18.newline_problem_loses_field", "Typedpy.C18.semicolon_value_demoted",
     "Typedpy.C18.non_ascii_name_loses_field", "Typedpy.C18.anon_message_no_field",
-    "Typedpy.C18.json_list_text_no_field", "Typedpy.C18.transform_examples",
+    "Typedpy.C18.json_list_text_no_field", "Typedpy.C18.deser_foreign_texts_no_field", "Typedpy.C18.transform_examples",
     "Typedpy.C18.readable_raises_iff", "Typedpy.C18.readable_total", "Typedpy.C18.readable_total_on_rejections",
     "Typedpy.C18.readable_raises_example",
     "Typedpy.C18.collect_all_exact", "Typedpy.C18.fail_fast_member", "Typedpy.C18.statement_partial",
